@@ -76,6 +76,11 @@ inline Case draw_case(const model::Desc & d, unsigned ncoords, bool allow_empty 
     c.cfg.assign(L, {});
     std::vector<Region> reg(L);
     bool has_linear = d.find("linear") >= 0;
+    // an outermost affine layer may be a shear (unit triangular, not a scaled permutation): its pre-image of a box is
+    // not a box, so coordinates are then obtained by solving A x + t = y exactly for targets y drawn beneath it
+    bool shear = false, shear_lower = true;
+    std::vector<std::vector<ld>> shear_a;
+    std::vector<ld> shear_t;
     for (size_t k = L; k-- > 0;) {
         const model::Layer & l = d.layers[k];
         const ld g = grid_of(l.in);
@@ -165,6 +170,36 @@ inline Case draw_case(const model::Desc & d, unsigned ncoords, bool allow_empty 
             }
             continue;
         }
+        if (l.kind == "affine" && k == 0 && l.N >= 2 && *in_range<unsigned>(0, 2) == 0) {
+            shear = true;
+            shear_lower = *in_range<unsigned>(0, 1) == 0;
+            shear_a.assign(l.N, std::vector<ld>(l.N, 0));
+            shear_t.assign(l.N, 0);
+            c.cfg[k].assign(l.N * (l.N + 1), model::encode(0, l.in));
+            bool any = false;
+            for (size_t i = 0; i < l.N; ++i) {
+                for (size_t j = 0; j < l.N; ++j) {
+                    ld a = (i == j) ? 1 : 0;
+                    if ((shear_lower && j < i) || (!shear_lower && j > i)) {
+                        a = ld(*in_range<int>(-1, 1));
+                        any = any || a != 0;
+                    }
+                    shear_a[i][j] = a;
+                }
+            }
+            if (!any) {
+                shear_a[shear_lower ? l.N - 1 : 0][shear_lower ? 0 : l.N - 1] = 1;
+            }
+            for (size_t i = 0; i < l.N; ++i) {
+                shear_t[i] = ld(*in_range<int>(-8, 8)) / 4;
+                for (size_t j = 0; j < l.N; ++j) {
+                    c.cfg[k][i * (l.N + 1) + j] = model::encode(shear_a[i][j], l.in);
+                }
+                c.cfg[k][i * (l.N + 1) + l.N] = model::encode(shear_t[i], l.in);
+            }
+            reg[k] = in;   // unused
+            continue;
+        }
         if (l.kind == "affine") {
             // signed, scaled permutation matrix (exactly invertible in dyadics) and a dyadic translation
             std::vector<size_t> p(l.N);
@@ -196,7 +231,29 @@ inline Case draw_case(const model::Desc & d, unsigned ncoords, bool allow_empty 
     }
     const model::Layer & top = d.layers[0];
     const ld g = grid_of(top.in);
-    for (unsigned n = 0; n < ncoords; ++n) {
+    for (unsigned n = 0; n < ncoords && shear; ++n) {
+        // target beneath the shear, then exact solution of the unit-triangular system
+        std::vector<ld> y(top.N), x(top.N, 0);
+        for (size_t a = 0; a < top.N; ++a) {
+            y[a] = draw_in(reg[1][a].lo, std::max(reg[1][a].lo, reg[1][a].hi), g);
+        }
+        for (size_t step = 0; step < top.N; ++step) {
+            size_t i = shear_lower ? step : top.N - 1 - step;
+            ld v = y[i] - shear_t[i];
+            for (size_t j = 0; j < top.N; ++j) {
+                if (j != i) {
+                    v -= shear_a[i][j] * x[j];
+                }
+            }
+            x[i] = v;
+        }
+        Words w;
+        for (size_t a = 0; a < top.N; ++a) {
+            w.push_back(model::encode(x[a], top.in));
+        }
+        c.coords.push_back(w);
+    }
+    for (unsigned n = 0; n < ncoords && !shear; ++n) {
         Words x;
         for (size_t a = 0; a < top.N; ++a) {
             ld lo = std::max(reg[0][a].lo, lowest_of(top.in)), hi = reg[0][a].hi;
